@@ -33,3 +33,6 @@ run src/fcp/specs/struct.py 's/"name": self.name,/"name": self.name.strip(),/' f
 run src/fcp/codegen.py 's/    path.parent.mkdir(exist_ok=True)/    pass/' fcp.codegen:_handle_file
 run plugins/fcp_can_c/fcp_can_c/generator.py 's/            if size > 64:/            if size >= 64:/' fcp_can_c.generator:Generator.register_checks.check_impl_size
 run plugins/fcp_can_c/fcp_can_c/can_c_writer.py '/    x |= x >> 2$/d' fcp_can_c.can_c_writer:ceil_to_power_of_2
+run plugins/fcp_dbc/fcp_dbc/generator.py 's/"bus": bus,/"bus": content,/' fcp_dbc.generator:Generator.generate
+run plugins/fcp_dbc/fcp_dbc/generator.py 's/for bus, content in write_dbc(fcp).unwrap()/for bus, content in write_dbc(fcp).unwrap()[1:]/' fcp_dbc.generator:Generator.generate
+run src/fcp/parser.py 's/    logger.add_source(str(filename), source)/    logger.add_source(str(filename.resolve()), source)/' fcp.parser:_get_fcp
